@@ -32,6 +32,7 @@ GTyped(es) == [g |-> "slice", es |-> es, typed |-> TRUE] \* []T of the elements'
 GMap(ps) == [g |-> "map", ps |-> ps]                     \* sequence of [k, v]
 GStruct(fs) == [g |-> "struct", fs |-> fs]               \* sequence of [n, x (exported), v]
 GBad(u) == [g |-> "unsupported", u |-> u]
+GSameName == [g |-> "samename"]                         \* []any{row{Title}, row{Name, Count}}: two struct types that are both called "row"
 GNilSlice == [g |-> "nilslice"]                          \* var s []string: a slice (of length 0), not a nil value
 GNilMap == [g |-> "nilmap"]                              \* var m map[string]int
 Fld(n, x, v) == [n |-> n, x |-> x, v |-> v]
@@ -66,6 +67,7 @@ Conv(v) ==
                              vs == [i \in 1..Len(ex) |-> Conv(ex[i].v)] IN
                          IF AnyBad(vs, "err") THEN Err("unsupported") ELSE IF AnyBad(vs, "nilptr") \/ AnyBad(vs, "unspec") THEN Unspec
                          ELSE O([i \in 1..Len(vs) |-> [pk |-> ex[i].n, pv |-> vs[i]]])
+    [] v.g = "samename" -> A(<<O(<<[pk |-> "Title", pv |-> S("T1")]>>), O(<<[pk |-> "Name", pv |-> S("N2")], [pk |-> "Count", pv |-> [t |-> "int", sym |-> "2"]]>>)>>)
     [] v.g = "nilslice" -> A(<<>>)
     [] v.g = "nilmap" -> O(<<>>)
     [] v.g = "unsupported" -> Err("unsupported")
@@ -80,7 +82,7 @@ PrintableD(v) == CASE v.t \in {"err", "unspec", "nilptr"} -> FALSE
                    [] OTHER -> TRUE
 
 \* ---- access paths: every way to reach every node of the converted value ----
-LowerFirst(n) == CASE n = "Name" -> "name" [] n = "Age" -> "age" [] n = "Inner" -> "inner" [] n = "Tags" -> "tags"
+LowerFirst(n) == CASE n = "Title" -> "title" [] n = "Count" -> "count" [] n = "Name" -> "name" [] n = "Age" -> "age" [] n = "Inner" -> "inner" [] n = "Tags" -> "tags"
                    [] n = "Val" -> "val" [] n = "K" -> "k" [] n = "P" -> "p" [] n = "Q" -> "q" [] OTHER -> n
 RECURSIVE Paths(_, _)
 Paths(v, depth) ==     \* set of [p |-> path source suffix, v |-> value reached]
@@ -128,7 +130,7 @@ BadAt(b) == {b, GPtr(b), GSlice(<<GInt("int", "five"), b>>), GMap(<<KV("k", b)>>
 HiddenBad == {GStruct(<<Fld("Name", TRUE, GStr("n")), Fld("ch", FALSE, GBad("chan"))>>)}
 
 \* Go's nil slices and nil maps are empty collections (C12: same shape; C02: empty arrays and objects are truthy)
-NilColls == {GNilSlice, GNilMap, GPtr(GNilSlice), GSlice(<<GNilSlice, GNilMap>>), GMap(<<KV("k", GNilSlice), KV("m", GNilMap)>>),
+NilColls == {GSameName, GPtr(GSameName), GNilSlice, GNilMap, GPtr(GNilSlice), GSlice(<<GNilSlice, GNilMap>>), GMap(<<KV("k", GNilSlice), KV("m", GNilMap)>>),
              GStruct(<<Fld("Tags", TRUE, GNilSlice), Fld("Inner", TRUE, GNilMap), Fld("Name", TRUE, GStr("n"))>>)}
 Values == CASE Family = "scalars" -> Scalars
             [] Family = "g1" -> G1 \cup NilPtrs \cup CaseKeys \cup NilColls
